@@ -174,7 +174,7 @@ def shape_instance(ctx, tu, fs, maxlen):
             o = run('ownsHandle', L_, S.Handle(None))
             expect('ownsHandle', 'expired handle', o is False, 'length %d' % n)
     except S.Unsupported as e:
-        raise AnalysisBroken('C01.S: the link routines use a construct outside the pointer-program fragment: %s' % e)
+        ctx.broken_later('C01.S: the link routines use a construct outside the pointer-program fragment: %s' % e)
     except S.NullDeref as e:
         fails[('(any)', 'no null dereference')] = str(e)
     laws = [('append', 'sequence'), ('append', 'well-formed'), ('append', 'handle'), ('prepend', 'sequence'), ('prepend', 'well-formed'),
